@@ -327,13 +327,8 @@ Definition prefix_dispatch_complete_frames := loop_on_prefix.
 
 Corollary terminates_normally k ms cut :
   msgs_ok k ms = true -> cut <= len (frames ms) ->
-  snd (loop_whole k AtEOF (take cut (frames ms))) = Done EndedNormally /\
-  (k <> Sync -> snd (loop_whole k AtReset (take cut (frames ms))) = Done EndedNormally).
-Proof.
-  intros H Hc. rewrite !(loop_on_prefix k _ ms cut H Hc). cbn [snd]. split.
-  - rewrite cut_term_eof. reflexivity.
-  - intros NS. destruct k; try reflexivity. congruence.
-Qed.
+  forall e, snd (loop_whole k e (take cut (frames ms))) = Done EndedNormally.
+Proof. intros H Hc e. rewrite (loop_on_prefix k e ms cut H Hc). reflexivity. Qed.
 
 (* events of a prefix: a prefix of all the bodies, then at most one truncated body *)
 Lemma cut_bodies_shape sh : forall ms cut,
